@@ -474,7 +474,7 @@ func TestVerif_C16(t *testing.T) {
 				// quick tier: one rotating value set per (subset, job) — every subset meets every value set across endpoints; the
 				// expensive login flow gets every 4th subset (all single headers included)
 				if !run.Env.Thorough() {
-					if (mask+ji)%len(vsets) != vi {
+					if (mask+ji+int(run.Env.Seed))%len(vsets) != vi {
 						continue
 					}
 					if j.ep.Flow != "" && mask&(mask-1) != 0 && mask%4 != 3 {
@@ -616,7 +616,7 @@ func c16ReverseProxyOn(run *vfRun, w *vfWorld, insts []c16RPInst) {
 		others = append(others, c16FwdNames[:3]...)
 		step := run.Env.Pick(5, 1)
 		for mask := 1; mask < 128; mask++ {
-			if mask&(mask-1) != 0 && (mask+ji)%step != 0 { // singles always, the rest sampled in quick
+			if mask&(mask-1) != 0 && (mask+ji+int(run.Env.Seed))%step != 0 { // singles always, the rest sampled in quick (by seed)
 				continue
 			}
 			for vi, ov := range otherVals {
